@@ -151,8 +151,11 @@ Proof. exact (ops_refine_plain_l k am (alloc_ok _ _) ops f). Qed.
 Lemma guard_ex : aligned_guard 9 1000 5000 /\ aligned_guard 2 1 2 /\ aligned_guard 0 0 1.
 Proof. unfold aligned_guard. repeat split; cbn; lia. Qed.
 
-(* ---- statements about the composites (fs/xfile.cpp) that are NOT proved yet; the model of the
-   composites is validated by the correspondence run only.  Logical content of a composite: *)
+(* ---- the user-level statement about the linear composites (fs/xfile.cpp), at factory level.  It is PROVED:
+   C16_XFinal.linear_refines_full (= theorem linear_refines_factories of C16_Properties.v), from the generic
+   composite layer (C16_XGeneric / C16_XProofs / C16_XZero) and its instances C16_XInst / C16_XZeroInst
+   (FixedSizeLinearFile, both splitters) and C16_XVar (VariableSizeLinearFile).  The definition stays here
+   because this file precedes those in the dependency order.  Logical content of a linear composite: *)
 Definition linear_content (files : list file) : file := concat files.
 (* FixedSizeLinearFile / VariableSizeLinearFile over sub-files that exactly fill their slots behave like
    the plain file [concat files] of fixed size (requests starting inside it, clipped at its end) *)
